@@ -70,8 +70,30 @@ Vector(o) == <<P_NoInternal(o), P_DocVerdict(o), P_OnceEach(o), P_Causal(o), P_V
                P_InOrderOnce(o), P_VersionsHonest(o), P_AllDelivered(o), P_KeyEstablished(o), P_ClosedOnce(o),
                P_NothingAfter(o), P_Verdict(o), P_Freed(o), P_CloseCompletes(o), P_KeyAgree(o), P_OnlyOneCode(o), P_Backed(o)>>
 
+\* ---- vacuity: was the predicate's antecedent true on this run (was there anything for it to judge)?  Same order as Names.
+AnyCl(o, P(_)) == \E c \in Cl(o) : P(c)
+Exercised(o) == <<
+    TRUE,
+    AnyCl(o, LAMBDA c : ClosedSeen(o, c)),
+    AnyCl(o, LAMBDA c : Len(EvOf(o, c)) > 0),
+    AnyCl(o, LAMBDA c : o.cl[c].ordered /\ Len(EvOf(o, c)) > 1),
+    o.orderPreserving /\ AnyCl(o, LAMBDA c : CountOf(EvOf(o, c), "versions") > 0),
+    AnyCl(o, LAMBDA c : \E i \in 1..Len(o.cl[c].late) : o.cl[c].late[i].closedBefore),
+    Two(o) /\ AnyCl(o, LAMBDA c : Len(Recv(o, c)) > 0),
+    AnyCl(o, LAMBDA c : CountOf(EvOf(o, c), "versions") > 0),
+    Two(o) /\ o.goal /\ AnyCl(o, LAMBDA c : Len(o.cl[c].sent) > 0),
+    Two(o) /\ o.goal,
+    AnyCl(o, LAMBDA c : ClosedSeen(o, c)),
+    AnyCl(o, LAMBDA c : ClosedSeen(o, c)),
+    AnyCl(o, LAMBDA c : ClosedSeen(o, c) /\ VerdictOf(o, c) \in Verdicts),
+    AnyCl(o, LAMBDA c : ClosedSeen(o, c) /\ VerdictOf(o, c) \in Verdicts \ {"ServerConnectionError"} /\ o.cl[c].atClose.everOpened),
+    AnyCl(o, LAMBDA c : o.cl[c].closeCalled /\ o.drained /\ ~o.cl[c].dead),
+    Two(o) /\ ((o.match /\ AnyCl(o, LAMBDA c : o.cl[c].verifier # "-")) \/ (~o.match /\ o.bothCoded)),
+    AnyCl(o, LAMBDA c : Len(o.cl[c].codeApi) > 1),
+    o.tampered /\ AnyCl(o, LAMBDA c : CountOf(EvOf(o, c), "versions") + CountOf(EvOf(o, c), "message") > 0) >>
+
 VARIABLE k
 Init == k = 0
-Next == k < Len(All) /\ k' = k + 1 /\ PrintT(<<"OBS", All[k'].tid, Vector(All[k'])>>)
+Next == k < Len(All) /\ k' = k + 1 /\ PrintT(<<"OBS", All[k'].tid, Vector(All[k']), Exercised(All[k'])>>)
 Spec == Init /\ [][Next]_k
 ====
